@@ -98,7 +98,10 @@ func (e *aggregate) SubMergers(subs []Expr) []SubMerge {
 	result := make([]SubMerge, len(subs))
 	for i, sub := range subs {
 		if e.String() == sub.String() {
+			// use only the first matching sub expression, merging identical ones
+			// would count their data more than once
 			result[i] = e.subMerge
+			break
 		}
 	}
 	return result
